@@ -113,6 +113,18 @@ func materialize(root string, c caseRec) error {
 				}
 			}
 		}
+		if has(c.Problems, "many-lint-violations") {
+			// 70 fields in the wrong case: the annotations of one run are several KiB in every format
+			var sb strings.Builder
+			sb.WriteString("syntax = \"proto3\";\n\npackage acme.v1;\n\nmessage Many {\n")
+			for k := 1; k <= 70; k++ {
+				sb.WriteString(fmt.Sprintf("  // f\n  string BadFieldNumber%d = %d;\n", k, k))
+			}
+			sb.WriteString("}\n")
+			if err := write(root, side+"/acme/v1/many.proto", sb.String()); err != nil {
+				return err
+			}
+		}
 		if has(c.Problems, "multi-line-lint") {
 			if err := write(root, side+"/acme/v1/ml.proto", "syntax = \"proto3\";\n\npackage acme.v1;\n\nmessage Ml {\n  // a\n  string a = 1; string no_comment = 2 [\n    deprecated = true\n  ];\n}\n"); err != nil {
 				return err
@@ -305,6 +317,17 @@ func run(in []byte) (*reg.Result, error) {
 						args = []string{"breaking", inputArg, "--against", filepath.Join(root, "prev")}
 					case "format":
 						args = []string{"format", inputArg, "--exit-code"}
+					case "format-write":
+						// every run starts from the unformatted files
+						if f != formats[0] {
+							if err := materialize(root, c); err != nil {
+								emu.Lock()
+								firstErr = err
+								emu.Unlock()
+								return
+							}
+						}
+						args = []string{"format", inputArg, "--exit-code", "-w"}
 					}
 					args = append(args, "--error-format="+f)
 					if c.Operational == "bad-flag" {
